@@ -25,6 +25,24 @@ VEC_DECL(vec_ulong, size_t)
 /* std::string: concrete character buffer plus an abstract identity `absid`
  * used when the string only travels from a stream into a hash or a map key */
 typedef struct { char *data; size_t size; size_t cap; long absid; } str_t;
+static inline size_t str_t__size(str_t *s) { return s->size; }
+static inline size_t str_t__length(str_t *s) { return s->size; }
+static inline _Bool str_t__empty(str_t *s) { return s->size == 0; }
+static inline void str_t__clear(str_t *s) { s->size = 0; }
+static inline char *str_t__op_index(str_t *s, size_t i)
+{ __CPROVER_assert(i < s->size, "string index in range"); return &s->data[i]; }
+static inline str_t *str_t__op_addassign_char(str_t *s, char c)
+{ __CPROVER_assert(s->size < s->cap, "model limit: string capacity"); s->data[s->size] = c; s->size = s->size + 1; return s; }
+/* literals appended by the extracted text have at most 4 characters */
+static inline str_t *str_t__op_addassign_cstr(str_t *s, const char *lit)
+{
+  if (lit[0] == 0) return s; str_t__op_addassign_char(s, lit[0]);
+  if (lit[1] == 0) return s; str_t__op_addassign_char(s, lit[1]);
+  if (lit[2] == 0) return s; str_t__op_addassign_char(s, lit[2]);
+  if (lit[3] == 0) return s; str_t__op_addassign_char(s, lit[3]);
+  __CPROVER_assert(lit[4] == 0, "model limit: literal longer than 4 characters");
+  return s;
+}
 VEC_DECL(vec_u8, unsigned char)
 
 #endif
